@@ -40,8 +40,16 @@ pub fn gen_case(rng: &mut Rng, idx: usize, thorough: bool) -> Value {
         }
         return json!({"kind": "api", "rx": rx_to_json(&r), "grammar": {"regex": r.to_regex()}, "texts": texts, "vocab_kind": 1, "canonical": false, "seed": rng.next() % 1_000_000_000, "steps": steps});
     }
+    if idx % 8 == 7 {
+        // forced text that reaches the end of the grammar, canonical tokenizer: forced bytes stay pending after
+        // compute_ff_bytes, and EOS is illegal until their tokens have been committed
+        let fams = eng::families();
+        let n = fams.len();
+        let (g, t) = &fams[n - 4 + (idx / 8) % 4];
+        return json!({"kind": "api", "grammar": g.to_json(), "texts": t.iter().map(|t| vocab::hex(t.as_bytes())).collect::<Vec<_>>(), "vocab_kind": (idx / 32) % 3, "canonical": true, "seed": rng.next() % 1_000_000_000, "steps": steps});
+    }
     let (g, texts) = eng::gen_grammar(rng, idx);
-    json!({"kind": "api", "grammar": g.to_json(), "texts": texts.iter().map(|t| vocab::hex(t)).collect::<Vec<_>>(), "vocab_kind": idx % 3, "canonical": false, "seed": rng.next() % 1_000_000_000, "steps": steps})
+    json!({"kind": "api", "grammar": g.to_json(), "texts": texts.iter().map(|t| vocab::hex(t)).collect::<Vec<_>>(), "vocab_kind": idx % 3, "canonical": (idx / 4) % 2 == 0, "seed": rng.next() % 1_000_000_000, "steps": steps})
 }
 
 pub fn run_case(ctx: &Ctx, case: &Value, tag: usize, rep: &mut Report, mb: &mut ModelBatch) {
@@ -280,6 +288,17 @@ fn run_api(_ctx: &Ctx, case: &Value, tag: usize, rep: &mut Report, mb: &mut Mode
             // a stop discovered at mask time (NoExtensionBias) must not be accepting (C03 judges the rest)
             break;
         };
+        // illegal at every state where EOS is not offered: committing EOS must fail (also while
+        // grammar-forced text is pending with a canonical tokenizer)
+        if mask.binary_search(&w.eos).is_err() {
+            let mut c = m.deep_clone();
+            if step % 2 == 0 { let _ = c.compute_ff_bytes(); }
+            if c.consume_token(w.eos).is_ok() {
+                rep.fail("oracle", "c18:eos-accepted-outside-mask", format!("step {step}: EOS is not in the mask (accepting={:?}) but committing it succeeded; stopped after={}", m.deep_clone().is_accepting(), c.is_stopped()), repro.clone());
+                break;
+            }
+            rep.count("api.illegal.eos_outside_mask");
+        }
         // expected stop decision for the next commit, computed on a low-level clone
         let r = rng.below(12);
         if r == 0 {
